@@ -186,7 +186,9 @@ class DefRuntime:
             nsp["__module__"] = st.get("mod", "app.models")
             bases = tuple(self.classes[b] for b in st["bases"])
             if st["dbc"]:
-                if not bases:
+                if not bases and k % 2:
+                    # root classes alternate between the two documented ways: deriving from DBC, and
+                    # ``class K(metaclass=icontract.DBCMeta)`` without DBC among the ancestors
                     bases = (ic.DBC,)
                 cls = ic.DBCMeta("K{}".format(k), bases, nsp)
             else:
